@@ -126,4 +126,13 @@ let register () =
     | [path] ->
         let b = string_of_bytes (Tar.tar_bytes (tree_of_spec path)) in
         string_of_int (Stdlib.String.length b) ^ " " ^ Sha256.hex b
+    | _ -> "ERR args");
+  (* c13.sink <spec file> <k1,k2,..> -> ok:bytes,...: Tar() onto a target that accepts k bytes *)
+  Drv.register "c13.sink" (fun args -> match args with
+    | [path; ks] ->
+        let t = tree_of_spec path in
+        Stdlib.String.concat "," (Stdlib.List.map (fun k ->
+          let (b, ok) = TarSink.tar_into TarSink.EncFixed t (n_of_string k) in
+          (if ok then "true" else "false") ^ ":" ^ string_of_int (Stdlib.List.length b))
+          (Stdlib.String.split_on_char ',' ks))
     | _ -> "ERR args")
